@@ -56,6 +56,158 @@ type symb struct {
 	loops map[*ssa.Phi]string
 	subst map[ssa.Value]*Sym // optional substitutions (e.g. parameters -> caller expressions)
 	outer *symb              // symb of the enclosing function (for captured variables)
+	depth int                // nesting of symbolic inlining
+}
+
+// symNoInline: functions that rules identify by role or name; calls to them are never rendered through their
+// bodies. Filled once after loading.
+var symNoInline = map[*ssa.Function]bool{}
+
+// inlinable: an unexported, loop-free module function that only computes its results (stores to its own locals
+// and panics aside) — a value helper. A call to it is rendered as the expression its body computes.
+func inlinable(c *ssa.Function) bool {
+	if c == nil || c.Blocks == nil || symNoInline[c] || c.Pkg == nil || !strings.HasPrefix(c.Pkg.Pkg.Path(), modPath) {
+		return false
+	}
+	if n := c.Name(); n == "" || (n[0] >= 'A' && n[0] <= 'Z') || strings.Contains(n, "$") || n == "init" {
+		return false
+	}
+	res := c.Signature.Results()
+	if res.Len() == 0 || res.Len() > 3 {
+		return false
+	}
+	for i := 0; i < res.Len(); i++ {
+		switch res.At(i).Type().Underlying().(type) {
+		case *types.Basic, *types.Slice, *types.Pointer, *types.Interface:
+		default:
+			return false
+		}
+	}
+	for _, b := range c.Blocks {
+		for _, p := range b.Preds {
+			if b.Dominates(p) {
+				return false // loop
+			}
+		}
+	}
+	ok := true
+	instrs(c, func(in ssa.Instruction) {
+		switch x := in.(type) {
+		case *ssa.Store:
+			if _, local := x.Addr.(*ssa.Alloc); local {
+				return
+			}
+			if ia, isIA := x.Addr.(*ssa.IndexAddr); isIA {
+				if al, isAl := ia.X.(*ssa.Alloc); isAl && (al.Comment == "varargs" || !al.Heap) {
+					return
+				}
+			}
+			if fa, isFA := x.Addr.(*ssa.FieldAddr); isFA {
+				if al, isAl := fa.X.(*ssa.Alloc); isAl && !al.Heap {
+					return
+				}
+			}
+			ok = false
+		case *ssa.MapUpdate, *ssa.Send, *ssa.Go, *ssa.Defer, *ssa.MakeClosure, *ssa.Range, *ssa.Next:
+			ok = false
+		case *ssa.Call:
+			if b, isB := x.Call.Value.(*ssa.Builtin); isB {
+				switch b.Name() {
+				case "len", "cap", "min", "max":
+				default:
+					ok = false
+				}
+				return
+			}
+			g := x.Call.StaticCallee()
+			if g == nil {
+				ok = false
+				return
+			}
+			if g.Pkg != nil && (g.Pkg.Pkg.Path() == "fmt" || g.Pkg.Pkg.Path() == "strconv" || g.Pkg.Pkg.Path() == "strings" || g.Pkg.Pkg.Path() == "bytes" || g.Pkg.Pkg.Path() == "math" || g.Pkg.Pkg.Path() == "errors") {
+				return // value functions of the standard library
+			}
+			if g == c {
+				ok = false
+				return
+			}
+			if !strings.HasPrefix(funcPkgPath(g), modPath) {
+				ok = false
+			}
+		}
+	})
+	return ok
+}
+
+// summary renders result idx of a call to the value helper c with the given argument expressions.
+func (s *symb) summary(c *ssa.Function, args []*Sym, idx int) *Sym {
+	if s.depth >= 2 || !inlinable(c) {
+		return nil
+	}
+	sub := newSymb(c)
+	sub.depth = s.depth + 1
+	for i, p := range c.Params {
+		if i < len(args) {
+			sub.subst[p] = args[i]
+		}
+	}
+	nodes := 0
+	var walk func(b, pred *ssa.BasicBlock) *Sym
+	walk = func(b, pred *ssa.BasicBlock) *Sym {
+		nodes++
+		if nodes > 48 {
+			return nil
+		}
+		switch t := lastInstr(b).(type) {
+		case *ssa.Return:
+			ops := retOperands(t)
+			if idx >= len(ops) {
+				return nil
+			}
+			o := ops[idx]
+			// a phi of the return block: the value of the edge this path came along
+			if phi, ok := o.(*ssa.Phi); ok && phi.Block() == b && pred != nil {
+				for i, p := range b.Preds {
+					if p == pred {
+						o = phi.Edges[i]
+					}
+				}
+			}
+			return sub.expr(o)
+		case *ssa.If:
+			a, bb := walk(b.Succs[0], b), walk(b.Succs[1], b)
+			if a == nil || bb == nil {
+				return nil
+			}
+			return simplifyIte(&Sym{Op: "ite", Args: []*Sym{sub.expr(t.Cond), a, bb}})
+		case *ssa.Jump:
+			return walk(b.Succs[0], b)
+		case *ssa.Panic:
+			return leaf("panic", "panic", nil)
+		}
+		return nil
+	}
+	return walk(c.Blocks[0], nil)
+}
+
+// simplifyIte removes a nested test of the same condition: ite(c, ite(c, a, _), b) = ite(c, a, b), likewise on
+// the else side; ite(c, a, a) = a.
+func simplifyIte(e *Sym) *Sym {
+	if e.Op != "ite" || len(e.Args) != 3 {
+		return e
+	}
+	c := e.Args[0].String()
+	t, f := e.Args[1], e.Args[2]
+	for t.Op == "ite" && len(t.Args) == 3 && t.Args[0].String() == c {
+		t = t.Args[1]
+	}
+	for f.Op == "ite" && len(f.Args) == 3 && f.Args[0].String() == c {
+		f = f.Args[2]
+	}
+	if t.String() == f.String() {
+		return t
+	}
+	return &Sym{Op: "ite", Args: []*Sym{e.Args[0], t, f}, Val: e.Val}
 }
 
 // cellValue: if cell (an Alloc holding one variable) is assigned exactly once — counting stores in the
@@ -214,6 +366,13 @@ func (s *symb) expr0(v ssa.Value) *Sym {
 			// load of a field of a local struct variable that is a copy of a loaded struct: the original's field
 			if fa, ok := x.X.(*ssa.FieldAddr); ok {
 				if al, ok := fa.X.(*ssa.Alloc); ok {
+					// a by-value struct parameter (spilled to this cell) that was substituted by a loaded struct:
+					// the field of the value is the load of the original's field
+					if val := cellValue(al); val != nil {
+						if sub, ok := s.subst[val]; ok && sub.Op == "load" && len(sub.Args) == 1 {
+							return &Sym{Op: "load", Args: []*Sym{{Op: "field", Leaf: fmt.Sprintf("f%d", fa.Field), Args: []*Sym{sub.Args[0]}}}, Val: v}
+						}
+					}
 					if val := cellValue(al); val != nil {
 						if ld, ok := val.(*ssa.UnOp); ok && ld.Op == token.MUL {
 							return &Sym{Op: "load", Args: []*Sym{{Op: "field", Leaf: fmt.Sprintf("f%d", fa.Field), Args: []*Sym{s.expr(ld.X)}}}, Val: v}
@@ -270,6 +429,14 @@ func (s *symb) expr0(v ssa.Value) *Sym {
 			return &Sym{Op: "builtin:" + b.Name(), Args: as, Val: v}
 		}
 		if c := x.Call.StaticCallee(); c != nil {
+			if c.Signature.Results().Len() == 1 {
+				if e := s.summary(c, as, 0); e != nil {
+					if e.Val == nil {
+						e = &Sym{Op: e.Op, Leaf: e.Leaf, Args: e.Args, Val: v}
+					}
+					return e
+				}
+			}
 			if len(as) == 0 {
 				return leaf("call", "call:"+fname(c)+"()", v)
 			}
@@ -330,6 +497,17 @@ func (s *symb) expr0(v ssa.Value) *Sym {
 		sort.Slice(es, func(i, j int) bool { return es[i].String() < es[j].String() })
 		return &Sym{Op: "phi", Args: es, Val: v}
 	case *ssa.Extract:
+		if cl, ok := x.Tuple.(*ssa.Call); ok {
+			if c := cl.Call.StaticCallee(); c != nil && inlinable(c) {
+				var as []*Sym
+				for _, a := range cl.Call.Args {
+					as = append(as, s.expr(a))
+				}
+				if e := s.summary(c, as, x.Index); e != nil {
+					return e
+				}
+			}
+		}
 		return &Sym{Op: fmt.Sprintf("extract:%d", x.Index), Args: []*Sym{s.expr(x.Tuple)}, Val: v}
 	case *ssa.Convert:
 		return &Sym{Op: "conv:" + x.Type().String(), Args: []*Sym{s.expr(x.X)}, Val: v}
